@@ -1,7 +1,9 @@
-"""C08/C07 translator: capture-mode tokens and ANSI constants -> coq/C08/Gen_tokens.v.
+"""C08/C07 translator: capture-mode tokens, ANSI constants and the comparison
+operators of BoundIO.write -> coq/C08/Gen_tokens.v.
 
 Reads, with `ast` only (nothing is imported or executed):
   supervisor/events.py       ProcessCommunicationEvent.BEGIN_TOKEN / END_TOKEN
+  supervisor/loggers.py      BoundIO.write (exact shape; the two comparison operators are generated)
   supervisor/dispatchers.py  ANSI_ESCAPE_BEGIN, ANSI_TERMINATORS, and the syntactic
                              facts that POutputDispatcher takes its tokens from
                              `self.event_type.BEGIN_TOKEN/END_TOKEN`
@@ -114,9 +116,50 @@ def read_dispatcher_facts():
     return esc, terms
 
 
+_BOUNDIO_TEMPLATE = (
+    "def write(self, b):\n"
+    "    blen = len(b)\n"
+    "    if len(self.buf) + blen %s self.maxbytes:\n"
+    "        self.buf = self.buf[blen:]\n"
+    "    self.buf += b\n"
+    "    if len(self.buf) %s self.maxbytes:\n"
+    "        self.buf = self.buf[len(self.buf) - self.maxbytes:]")
+_CMP = {ast.Gt: ('>', 'Z.gtb'), ast.GtE: ('>=', 'Z.geb')}
+
+
+def read_boundio():
+    """The two comparison operators of loggers.BoundIO.write (everything else of
+    the method must have exactly the modelled shape) -> (coq fn, coq fn)."""
+    lg = _parse('supervisor/loggers.py')
+    cls = _class(lg, 'BoundIO')
+    fns = [n for n in cls.body if isinstance(n, ast.FunctionDef) and n.name == 'write']
+    if len(fns) != 1:
+        raise Reject('BoundIO.write not found')
+    fn = fns[0]
+    ifs = [n for n in fn.body if isinstance(n, ast.If)]
+    if len(ifs) != 2:
+        raise Reject('BoundIO.write does not have exactly two if statements')
+    ops = []
+    for n in ifs:
+        t = n.test
+        if not (isinstance(t, ast.Compare) and len(t.ops) == 1 and type(t.ops[0]) in _CMP):
+            raise Reject('unexpected test in BoundIO.write: %s' % ast.dump(t)[:200])
+        ops.append(type(t.ops[0]))
+    got = ast.unparse(fn)
+    want = _BOUNDIO_TEMPLATE % (_CMP[ops[0]][0], _CMP[ops[1]][0])
+    if ast.dump(ast.parse(got)) != ast.dump(ast.parse(want)):
+        raise Reject('BoundIO.write has an unexpected shape:\n%s' % got)
+    init = [n for n in cls.body if isinstance(n, ast.FunctionDef) and n.name == '__init__']
+    if len(init) != 1 or ast.dump(ast.parse(ast.unparse(init[0]))) != ast.dump(ast.parse(
+            "def __init__(self, maxbytes, buf=b''):\n    self.maxbytes = maxbytes\n    self.buf = buf")):
+        raise Reject('BoundIO.__init__ has an unexpected shape')
+    return _CMP[ops[0]][1], _CMP[ops[1]][1]
+
+
 def generate():
     begin, end = read_tokens()
     esc, terms = read_dispatcher_facts()
+    drop_cmp, clamp_cmp = read_boundio()
     text = (
         '(* GENERATED by gen/c08_tokens.py from supervisor/events.py and\n'
         '   supervisor/dispatchers.py -- do not edit. *)\n'
@@ -125,8 +168,13 @@ def generate():
         'Definition end_token : list Z := %s.\n'
         'Definition ansi_escape_begin : list Z := %s.\n'
         'Definition ansi_terminators : list Z := %s.\n'
+        '(* loggers.BoundIO.write: `if len(self.buf) + blen <cmp> self.maxbytes` (drop from the\n'
+        '   front) and `if len(self.buf) <cmp> self.maxbytes` (clamp); the rest of the method\n'
+        '   has exactly the shape modelled by Stream.bound_write *)\n'
+        'Definition boundio_drop_cmp : Z -> Z -> bool := %s.\n'
+        'Definition boundio_clamp_cmp : Z -> Z -> bool := %s.\n'
         % (vlib.bytes_lit(begin), vlib.bytes_lit(end), vlib.bytes_lit(esc),
-           vlib.zlist([t[0] for t in terms])))
+           vlib.zlist([t[0] for t in terms]), drop_cmp, clamp_cmp))
     vlib.write_if_changed(os.path.join(vlib.COQ, 'C08', 'Gen_tokens.v'), text)
     return {'begin': begin, 'end': end, 'esc': esc, 'terms': terms}
 
